@@ -142,10 +142,10 @@ def run(pid, tier, selftest):
         vlib.tool_error("expected-violation configuration MC_Merge_Missing did not fail")
     # random pairs
     rng = random.Random(vlib.seed() * 7919 + (8 if pid == "C08" else 9))
-    nrand = 1200 if thorough else 30
+    nrand = 300 if thorough else 30
     rand_cases = []
     for i in range(nrand):
-        a, b = random_pair(rng, rng.choice([30, 60, 120, 240] if thorough else [20, 40]))
+        a, b = random_pair(rng, rng.choice([30, 60, 120] if thorough else [20, 40]))
         rand_cases.append({"id": {"site": "random", "mode": "random", "n": i}, "A": to_abstract(a), "B": to_abstract(b)})
     allc = cases + rand_cases
     mo = []
